@@ -3,7 +3,7 @@
    (or a closed computation for a refutation witness); Print Assumptions follows each. *)
 From Coq Require Import List String NArith ZArith Bool Permutation.
 Import ListNotations.
-From VF Require Import common.Json C15.Full C15.FullProofs C15.Codec C15.CodecProofs C15.Corr C15.FullConc.
+From VF Require Import common.Json C15.Full C15.FullProofs C15.FullOnce C15.Codec C15.CodecProofs C15.Corr C15.FullConc.
 Local Open Scope list_scope.
 Local Open Scope N_scope.
 
@@ -56,6 +56,25 @@ Theorem conservation_many_faults : forall (ops : list fop) (s0 : fstore) (d : di
   fdelivered d outs ++ held s d = held s0 d ++ faccepted d ops outs.
 Proof. exact frun_conserve_many. Qed.
 Print Assumptions conservation_many_faults.
+
+(* EXACTLY ONCE, spelled out: when the accepted messages are pairwise different, nothing is delivered twice, nothing
+   delivered is still held, and a message is accepted iff it is delivered or held *)
+Theorem exactly_once_delivery : forall ops s0 d,
+  run_loses s0 ops = false -> held s0 d = [] ->
+  NoDup (faccepted d ops (snd (frun s0 ops))) ->
+  NoDup (fdelivered d (snd (frun s0 ops))) /\
+  (forall m, In m (fdelivered d (snd (frun s0 ops))) -> ~ In m (held (fst (frun s0 ops)) d)) /\
+  (forall m, In m (faccepted d ops (snd (frun s0 ops))) <->
+             In m (fdelivered d (snd (frun s0 ops))) \/ In m (held (fst (frun s0 ops)) d)).
+Proof. exact exactly_once. Qed.
+Print Assumptions exactly_once_delivery.
+
+(* IN ORDER, spelled out: what has been delivered is at every moment a prefix of what was accepted *)
+Theorem delivered_in_acceptance_order : forall ops s0 d,
+  run_loses s0 ops = false -> held s0 d = [] ->
+  exists rest, faccepted d ops (snd (frun s0 ops)) = fdelivered d (snd (frun s0 ops)) ++ rest.
+Proof. exact delivered_is_prefix. Qed.
+Print Assumptions delivered_in_acceptance_order.
 
 (* the service only ever writes documents whose message_count is the number of messages (from the empty store
    and from any well-formed one, under any faults, across restarts) ... *)
